@@ -55,19 +55,22 @@ func (m MessageWriter) Merge(src types.Message) error {
 // Build ends the message and returns its bytes.
 func (m *MessageWriter) Build() ([]byte, error) {
 	b, err := m.w.end()
-	m.w = nil
+	m.w = closedWriter
 	return b, err
 }
 
 // End ends the message.
 func (m *MessageWriter) End() error {
 	_, err := m.w.end()
-	m.w = nil
+	m.w = closedWriter
 	return err
 }
 
 // Unwrap returns the underlying writer.
 func (m MessageWriter) Unwrap() Writer {
+	if m.w == closedWriter {
+		return nil
+	}
 	return m.w
 }
 
